@@ -403,6 +403,60 @@ def explore_deep(ctx, ncases, policies, runs):
                     ctx.distinct(("deep", depth, tuple(sorted(acc))[:6], tuple((a, o) for a, _op, o in out.trace)))
 
 
+def explore_cascade_route(ctx, depth, confs, nws):
+    """The walk as its main caller reaches it: cascade_images(pio, start, merger, tile_filter=...) and Builder.cascade over a
+    directory that holds a leaf tile at EVERY position of the deepest level (data outside the filter too).  The tiles the
+    per-tile callback ran for are observable as the parent files it wrote: they must be exactly TLC's operation set, serially
+    and with worker processes under the scheduler."""
+    import numpy as np
+    from toasty import pyramid as _py, merge, builder as _b
+    table = ops_table(ctx, depth, [(a, x) for a, x in confs])
+    for (acc, apex), row in zip(confs, table):
+        ops = set(row["ops"])
+        for route in ("cascade_images", "Builder.cascade"):
+            for nw in nws:
+                d = ctx.mkdtemp("casc")
+                pio = _py.PyramidIO(d, default_format="npy")
+                from toasty.image import Image
+                for q_ in level(depth):
+                    pio.write_image(_py.Pos(*q_), Image.from_array(np.full((256, 256), float(1 + q_[1] + 4 * q_[2]), dtype=np.float32)))
+                flt = (lambda t, acc=acc: tuple(t.pos) in acc)
+
+                def main(pio=pio, flt=flt, route=route, nw=nw):
+                    if route == "cascade_images":
+                        merge.cascade_images(pio, depth, merge.averaging_merger, parallel=nw, tile_filter=flt)
+                    else:
+                        bld = _b.Builder(pio)
+                        bld.imgset.tile_levels = depth
+                        try:
+                            bld.cascade(parallel=nw, tile_filter=flt)
+                        except Exception:  # noqa - reading the root back (which a filter may leave unbuilt) is not the walk
+                            pass
+                label = "%s(start=%d, tile_filter over %d accepted tiles, parallel=%d)" % (route, depth, len(acc), nw)
+                rep = {"route": route, "depth": depth, "accept": sorted(acc), "workers": nw, "seed": ctx.seed}
+                if nw == 1:
+                    with simrun.quiet():
+                        main()
+                    status = "returned"
+                else:
+                    out = simrun.run(main, simrun.pol_random(ctx.rng))
+                    status = out.status
+                ctx.count()
+                if status != "returned":
+                    if status == "hang":
+                        ctx.violation("C01:cascade-route:hang", "%s never returns" % label, rep)
+                    continue
+                built = set()
+                for n in range(depth):
+                    for q_ in level(n):
+                        if os.path.exists(pio.tile_path(_py.Pos(*q_), makedirs=False)):
+                            built.add(q_)
+                if built != ops:
+                    ctx.violation("C01:cascade-route:tiles-processed", "%s: the per-tile callback produced parents %s; the live non-leaf tiles of the filtered pyramid are %s"
+                                  % (label, sorted(built - ops)[:5] and ("beyond the filter: %s" % sorted(built - ops)[:5]) or ("missing: %s" % sorted(ops - built)[:5]), sorted(ops)), rep)
+                ctx.distinct(("cascade-route", route, nw, tuple(sorted(acc))))
+
+
 def explore_children_first_under_fault(ctx, depth, confs, nw, runs):
     """The ordering sentence does not stop holding when a callback fails: a tile whose callback raised never completed, so no
     tile above it may be started (how the failure is reported is C19's subject)."""
@@ -591,6 +645,8 @@ def run(ctx):
     # (3a) deep, sparse pyramids: positions at large coordinates (beyond 2^12 and 2^16), expected operations from TLC's sparse
     # computation of the live set
     explore_deep(ctx, 5 if q else 40, ["random", "stall-w1-cb", "late-timeout"] if q else ["random", "stall-w1-cb", "late-timeout", "starve-feeder", "workers-last"], 2 if q else 4)
+    # (3a') the walk reached through its main callers
+    explore_cascade_route(ctx, 2, [(fam[1], ROOT), (fam[3], ROOT)] if q else [(fam[1], ROOT), (fam[3], ROOT), (fam[4], ROOT), (fam[5], ROOT)], [1, 2])
     # (3b) histories on one object
     explore_history(ctx, acc3, (2, 0, 1), [2, 3, 2, 3])
     explore_history(ctx, acc3, ROOT, [1, 3, 2])
